@@ -2,12 +2,67 @@
 
 // C24 — an acquired pack descriptor is never closed under its reader.
 //
-// Real code: internal/sharedfile, x/fdpool (and their interplay as wired by
-// internal/packhandle). Stub: the files (fake descriptors that know whether
-// they are open and who holds them). Reader tasks acquire/read/release,
-// an evictor calls ReleaseNow, a closer closes and re-creates shared files,
-// the clock crosses the grace period. Every hooked lock and every fake-file
-// operation is a scheduling point chosen by the seeded driver.
+// Two configurations, chosen per plan (Plan.Handles).
+//
+// (1) SharedFile level (this file). Real code: internal/sharedfile, x/fdpool.
+// Stub: the files (fake descriptors that know whether they are open and who
+// holds them). Reader tasks acquire/read/release, an evictor calls ReleaseNow,
+// a closer closes and re-creates shared files, the clock crosses the grace
+// period. Every hooked lock and every fake open/read is a scheduling point
+// chosen by the seeded driver.
+//
+// (2) PackHandle level (handles_test.go, fixture_test.go). Real code:
+// internal/packhandle (PackHandle, cursorReader, Meta, Index, Close through its
+// sync.Once, CloseIdleDescriptors, size cache), idxfile.LazyIndex (init, lookups,
+// iterators, CloseIdleDescriptors, Close), internal/sharedfile, x/fdpool - 1-3
+// PackHandles on ONE pool (nil, fdpool.New(0), capacity 1-4). Stub: the files,
+// which serve REAL bytes: two pack triples built once per process by go-git's
+// own pack encoder + PackfileWriter (idx writer, rev encoder) on a simulated
+// disk; the LazyIndex parses the idx/rev it reads through the fakes. Index
+// wiring is a plan field: PackHandle.Index() (idx/rev NOT pooled: packhandle
+// calls NewLazyIndex) or the storage layer's wiring (a LazyIndex built with
+// NewLazyIndexWithPool on the same pool, so pack, idx and rev of one pack compete
+// for slots). Tasks: streaming cursors (Read/Seek/ReadAt, several reads while
+// held, lookups and Meta while held, Close twice), random cursors, index lookups
+// (FindOffset present/absent, Contains, FindCRC32, FindHash = rev file,
+// MayContain/Count; through a fresh Index() or a value kept from an earlier call),
+// iterators held over several Next (Entries, EntriesByOffset = idx+rev pinned),
+// Meta, CloseIdleDescriptors, Close + re-creation of the handle at its position,
+// transient open failures, clock steps around the 1 s grace period.
+// Scheduling points: simhook.BeforeLock sites of sharedfile/fdpool/packhandle
+// (SharedFile.mu, Pool.mu, metaMu, indexMu), the OnceEnter bracket of
+// PackHandle.Close, every fake open/stat/read. The lock hook is a copy of
+// hooks.Install that also observes WHICH lock is requested from where: this
+// identifies SharedFile values (address of SharedFile.mu seen just before the
+// opener runs), evictions in flight (Pool.Touch -> ReleaseNow lock requested,
+// Touch's re-lock not yet) and the all-pinned fallback.
+//
+// Oracle (both): (I1) a read through an acquired descriptor / cursor / lookup /
+// iterator never fails unless Close of the owning SharedFile / PackHandle /
+// LazyIndex was invoked earlier in the event order (or the plan injected an open
+// failure into that call), a descriptor is never closed while a holder is known
+// or a read is in progress on it, and - handles - every byte, count, offset and
+// lookup answer equals the real content; (I2) at every quiescent step: open
+// pooled descriptors <= capacity + members pinned (a call that acquires has been
+// invoked and the call that releases has not returned) + evictions in flight;
+// (I3) once everything stopped, descriptors no evicting pool governs are closed
+// within grace+1ms, pooled ones are <= capacity; (I4) after every owner is
+// closed: nothing open, nothing closed twice, nothing opened after its owner's
+// Close returned.
+//
+// Deliberately not judged: errors of OpenPackReader/OpenRandomReader themselves
+// (no descriptor was handed out; counted), the pool's LRU bookkeeping
+// (stale-closed-member-left-in-pool is a probe), how often Source.Size is
+// called. packhandle itself never reads .rev: only LazyIndex does (header at
+// init, FindHash, EntriesByOffset).
+//
+// Signatures: C24|closed-under-reader, C24|read-on-closed-descriptor[|cursor-read
+// |cursor-readat|cursor-seek|lookup|iter-open|iter-next|meta|index-load],
+// C24|double-close, C24|open-after-close, C24|over-capacity,
+// C24|over-capacity-at-rest, C24|idle-not-closed|<nil-pool|noop-pool|handle-index-unpooled>,
+// C24|leak-after-close, C24|handle|wrong-bytes|<cursor-read|cursor-readat|cursor-seek>,
+// C24|handle|wrong-answer|<find-offset|contains-crc|find-hash|may-contain|iter|meta>,
+// C24|handle|unexpected-error|<what>, C24|deadlock, C24|panic.
 package c24
 
 import (
@@ -15,8 +70,10 @@ import (
 	"fmt"
 	"io"
 	"io/fs"
+	"strconv"
 	"testing"
 	"time"
+	"unsafe"
 
 	"github.com/go-git/go-git/v6/internal/sharedfile"
 	"github.com/go-git/go-git/v6/verifsim/core"
@@ -26,9 +83,10 @@ import (
 )
 
 type Op struct {
-	Kind  string `json:"kind"` // use | evict | close
+	Kind  string `json:"kind"` // use | evict | close; with Plan.Handles: cursor | random | lookup | iter | meta | idle | close
 	File  int    `json:"file"`
 	Reads int    `json:"reads"`
+	Arg   int    `json:"arg,omitempty"` // Plan.Handles only: selects read modes, offsets, lengths, hashes
 }
 
 type TaskPlan struct {
@@ -41,11 +99,24 @@ type Plan struct {
 	Tasks    []TaskPlan     `json:"tasks"`
 	OpenFail []int          `json:"open_fail"` // ordinals (1-based) of open() calls that fail transiently
 	Sched    sched.Schedule `json:"sched"`
+	// Handles selects the second configuration (handles_test.go): Files is the
+	// number of PackHandle positions (1-3) and the ops are handle operations.
+	Handles bool `json:"handles,omitempty"`
+	// StorageIdx (Handles only): index lookups go through a LazyIndex built with
+	// NewLazyIndexWithPool on the same pool (the storage layer's wiring) instead
+	// of PackHandle.Index() (whose idx/rev files are not pooled).
+	StorageIdx bool `json:"storage_idx,omitempty"`
 }
 
 const grace = time.Second
 
+// share of the generated plans that use the PackHandle configuration
+const handleShareNum, handleShareDen = 1, 3
+
 func genPlan(r *core.Rand, tier string) any {
+	if r.Chance(handleShareNum, handleShareDen) {
+		return genHandlePlan(r, tier)
+	}
 	p := &Plan{PoolCap: []int{-1, 0, 1, 1, 2, 2, 3}[r.Intn(7)], Files: r.Range(2, 5)}
 	nt := r.Range(2, 5)
 	total := 0
@@ -114,7 +185,7 @@ type world struct {
 	out       *core.Outcome
 	slots     []*slot
 	files     []*fakeFile
-	holders   map[*fakeFile]int // tasks between Acquire return and Release call
+	holders   map[*fakeFile]int              // tasks between Acquire return and Release call
 	acquiring map[*sharedfile.SharedFile]int // tasks between Acquire invocation and Release return, per SharedFile VALUE (two closers racing on one position can leave two live SharedFiles behind it)
 	openCalls int
 	openFail  map[int]bool
@@ -123,6 +194,7 @@ type world struct {
 	cap       int
 	all       []*sharedfile.SharedFile
 	inAcquire int // tasks currently inside an Acquire call
+	sfLabel   map[uintptr]string
 }
 
 func (w *world) fail(sig, format string, args ...any) {
@@ -186,6 +258,9 @@ func (w *world) newSF(s *slot) {
 		return f, nil
 	}
 	sf = sharedfile.NewWithPool(open, grace, w.pool)
+	// the SharedFile's mutex is its first field: its address is the SharedFile's
+	// (only used to label lock requests; a wrong guess costs a label, nothing else)
+	w.sfLabel[uintptr(unsafe.Pointer(sf))] = "sf" + strconv.Itoa(len(w.all))
 	w.all = append(w.all, sf)
 	s.sf = sf
 	s.closeCalled = false
@@ -207,6 +282,9 @@ func (w *world) openCount() (open, pinned int) {
 
 func execPlan(t *testing.T, pa any) (out core.Outcome) {
 	p := pa.(*Plan)
+	if p.Handles {
+		return execHandles(t, p)
+	}
 	if p.Files < 1 {
 		p.Files = 1
 	}
@@ -219,7 +297,7 @@ func execPlan(t *testing.T, pa any) (out core.Outcome) {
 		drv = sched.New(p.Sched)
 		drv.MaxSteps = 4000
 		w = &world{drv: drv, out: &out, holders: map[*fakeFile]int{}, acquiring: map[*sharedfile.SharedFile]int{}, openFail: map[int]bool{},
-			closedSF: map[*sharedfile.SharedFile]bool{}, cap: p.PoolCap}
+			closedSF: map[*sharedfile.SharedFile]bool{}, cap: p.PoolCap, sfLabel: map[uintptr]string{}}
 		theWorld = w
 		for _, n := range p.OpenFail {
 			w.openFail[n] = true
@@ -235,7 +313,9 @@ func execPlan(t *testing.T, pa any) (out core.Outcome) {
 			w.slots = append(w.slots, s)
 			w.newSF(s)
 		}
-		hooks.Install(drv)
+		// hooks.Install plus a label of the SharedFile in every lock request
+		// (see installLockHooks)
+		installLockHooks(drv, func(addr uintptr) string { return w.sfLabel[addr] }, nil, nil, nil)
 		defer hooks.Uninstall()
 		// I2 at every quiescent step
 		drv.OnStep = func(step int) {
@@ -415,16 +495,23 @@ func TestCheck(t *testing.T) {
 	core.Main(t, core.Check{
 		ID:    "C24",
 		Level: "exploration",
-		Rule: "plan = pool kind (nil, no-op, capacity 1-3) x 2-5 shared files x 2-5 tasks of use(acquire, k reads, release)/ReleaseNow/Close+recreate ops x transient open failures x seeded schedule with clock steps around the 1s grace period; " +
+		Rule: "two configurations, 2/3 and 1/3 of the plans. SharedFile level: pool kind (nil, no-op, capacity 1-3) x 2-5 shared files x 2-5 tasks of use(acquire, k reads, release)/ReleaseNow/Close+recreate ops x transient open failures x seeded schedule with clock steps around the 1s grace period. " +
+			"PackHandle level (plan.handles): pool kind (nil, no-op, capacity 1-4) x 1-3 PackHandles over real pack/idx/rev bytes x index wiring (PackHandle.Index() | pooled LazyIndex as the storage layer builds it) x 2-4 tasks of 1-4 ops (streaming cursor, random cursor, index lookup, iterator, Meta, CloseIdleDescriptors, Close+re-create; 0-5 reads per cursor/iterator with offsets, lengths, seeks, hashes drawn from the plan) x transient open failures x the same schedule and clock steps; " +
 			"non-trivial = more context switches than tasks; distinct = distinct plan JSON",
-		Assumptions: []string{"files are fakes that record open/closed state and holders; 'pinned by readers' counts tasks between Acquire invocation and Release return",
-			"'idle handles are eventually closed' is checked for SharedFiles without an evicting pool (nil pool or fdpool.New(0)) as closed within grace+1ms once all activity stopped; with an evicting pool, as open <= capacity at rest"},
-		Real:    []string{"internal/sharedfile.SharedFile", "x/fdpool.Pool"},
-		Stub:    []string{"file descriptors (fakes)", "clock (synctest)", "scheduler (seeded driver via simhook.BeforeLock)"},
-		Runs:    map[string]int{"quick": 300000, "thorough": 6000000},
+		Assumptions: []string{"files are fakes that record open/closed state and holders (PackHandle level: and serve the real bytes of two pack triples produced by go-git's encoder and pack writer); 'pinned by readers' counts, per SharedFile value, tasks between the invocation of the call that acquires (Acquire, OpenPackReader, Meta, a lookup, an iterator constructor) and the return of the call that releases",
+			"a victim whose eviction is in flight is allowed on top of capacity + pinned: SharedFile level, one per task inside Acquire; PackHandle level, exactly the tasks between Pool.Touch's request for the victim's ReleaseNow lock and Touch's re-lock (observed through the lock hook)",
+			"'idle handles are eventually closed' is checked for SharedFiles without an evicting pool (nil pool, fdpool.New(0), and the idx/rev files behind PackHandle.Index(), which packhandle never registers with the pool) as closed within grace+1ms once all activity stopped; with an evicting pool, as open <= capacity at rest",
+			"a failing OpenPackReader/OpenRandomReader hands out no descriptor and is therefore not judged (counted)"},
+		Real: []string{"internal/sharedfile.SharedFile", "x/fdpool.Pool", "internal/packhandle.PackHandle + cursorReader (OpenPackReader, OpenRandomReader, Meta, Index, CloseIdleDescriptors, Close)", "plumbing/format/idxfile.LazyIndex (init, lookups, iterators, CloseIdleDescriptors, Close) over real idx/rev bytes",
+			"setup only: packfile.Encoder, filesystem PackfileWriter (idx writer, revfile encoder), idxfile.Decoder for the lookup model"},
+		Stub:    []string{"file descriptors (fakes; PackHandle level: fakes serving real pack/idx/rev bytes)", "clock (synctest)", "scheduler (seeded driver via simhook.BeforeLock / OnceEnter and every fake open, stat, read)"},
+		Runs:    map[string]int{"quick": 225000, "thorough": 4500000},
 		NewPlan: func() any { return &Plan{} },
 		Gen:     genPlan,
 		Exec:    execPlan,
-		RequiredProbes: []string{"evictions", "pinned-skips", "release-now", "close", "acquire-after-close", "open-above-capacity-while-pinned"},
+		RequiredProbes: []string{"evictions", "pinned-skips", "release-now", "close", "acquire-after-close", "open-above-capacity-while-pinned",
+			"handle-config-runs", "pool-eviction-observed", "handle-cursor-read-after-idx-evicted", "all-pinned-fallback-within-one-handle", "handle-closed-while-cursor-held",
+			"index-loaded-through-fake-file", "rev-file-used", "re-registration-after-close", "grace-close-of-handle-file-then-reopen",
+			"lookup-reopened-idx-after-eviction", "index-usable-while-cursor-held", "lookup-through-kept-index-value", "close-idle"},
 	})
 }
